@@ -101,6 +101,15 @@ func c17Programs(th bool) []*pg.Program {
 		}
 		ps = append(ps, p)
 	}
+	// shapes whose dependency lists name several providers (and one provider twice)
+	for _, n := range []string{"dup3", "join", "diamond", "multi"} {
+		if !th && (n == "diamond" || n == "multi") {
+			continue
+		}
+		f := pg.Shape(n)
+		f.Conc = "2"
+		ps = append(ps, flowProg(f, "shape:"+n))
+	}
 	if pl, err := planFor("C18", "quick"); err == nil {
 		for i, p := range pl.progs {
 			if i%16 == 0 || th {
